@@ -2,6 +2,12 @@
   Property C04 — every observable produced by the library is structurally well-formed.
   Property theorems only.
 -/
+import Mathlib.Tactic.Linarith
+import Mathlib.Tactic.Ring
+import PV.Proofs.C04Lemmas
+import PV.Proofs.RealScalar
+import PV.Props.C01
+import PV.Spec.Propagate
 import PV.Spec.WF
 
 namespace PV
@@ -21,5 +27,213 @@ theorem c04_diag_ok (o : Obs α) (h : Spec.wfDiag o = "ok") : strictSortedStr o.
   by_cases hs : strictSortedStr o.names = true
   · exact hs
   · simp [hs] at h
+
+
+section constructor_and_propagation
+
+open Scalar
+
+variable {α : Type} [Scalar α]
+
+/- C04 (constructor).  The statement as given,
+
+     theorem c04_mk_wf (samples : List (List α)) (names : List String) (idl : Option (List Idl)) (o : Obs α)
+         (h : mkObs samples names idl = .ok o) : Spec.wfC04 o = true
+
+   is FALSE for the model: the type `Idl` admits `Idl.range s n 0` (a "range" with step 0, which is
+   not a Python object: `range(a, b, 0)` raises ValueError), `Idl.normalise` only rejects `st < 0`,
+   and `mkObs` hands a range through unchanged.  `mkObs [[0,0,0,0,0]] ["a"] (some [.range 0 5 0])`
+   is accepted and yields a chain on the configurations `[0,0,0,0,0]`, which violates both
+   `Idl.strictInc` and the `st > 0` clause of `Obs.WF` (`c04_mk_wf_false`).  Everything else in the
+   statement holds: `c04_mk_wf_corrected` assumes only that the ranges handed to the constructor
+   have a non-zero step (which every Python `range` has). -/
+
+/-- the original statement of `c04_mk_wf` (universally closed) is refuted, for every scalar type -/
+theorem c04_mk_wf_false :
+    ¬ ∀ (samples : List (List α)) (names : List String) (idl : Option (List Idl)) (o : Obs α),
+        mkObs samples names idl = .ok o → Spec.wfC04 o = true := by
+  intro H
+  have := H [[0, 0, 0, 0, 0]] ["a"] (some [.range 0 5 0]) _ rfl
+  simp [Spec.wfC04, Obs.WF, Idl.toList, Idl.strictInc, List.range_succ] at this
+
+/-- C04 (constructor), corrected: whatever `Obs(samples, names, idl)` accepts satisfies the
+    invariant (sorted unique chain names, strictly increasing configuration numbers, one
+    fluctuation per configuration, range exactly when equally spaced and then at least two
+    configurations), provided no `range` handed in has step 0 -/
+theorem c04_mk_wf_corrected (samples : List (List α)) (names : List String) (idl : Option (List Idl)) (o : Obs α)
+    (hstep : ∀ il, idl = some il → ∀ s n st, Idl.range s n st ∈ il → st ≠ 0)
+    (h : mkObs samples names idl = .ok o) : Spec.wfC04 o = true := by
+  obtain ⟨hlen, hil, hchk, hfew, reps, hM, hreps, hcovs⟩ := C04.mkObs_ok samples names idl o h
+  have hF := C04.mapM_ok _ _ _ hM
+  have hnames : o.names = Py.sortBy (fun a b => decide (a ≤ b)) names := by
+    rw [Obs.names, hreps, ← C04.mkTriples_names samples names idl hlen hil]
+    exact C04.forall₂_map_eq C04.mkRep (·.name) (·.1) (fun a r har => (C04.mkRep_ok a r har).1) _ _ hF
+  have hsorted : strictSortedStr o.names = true := by
+    rw [hnames]
+    exact C04.sorted_names_of_checks names (fun h1 => (hchk h1).1)
+  have hrep : ∀ r ∈ o.reps, C04.repOK r = true := by
+    intro r hr
+    rw [hreps] at hr
+    obtain ⟨t, ht, htr⟩ := C04.forall₂_mem _ _ _ hF r hr
+    obtain ⟨_, hti, hts⟩ := C04.mem_mkTriples samples names idl t ht
+    apply C04.mkRep_wf t r htr (hfew _ hts)
+    intro s n st hteq
+    rw [hteq] at hti
+    exact C04.mkIdls_step samples idl hstep s n st hti
+  simp only [Spec.wfC04, Obs.WF, Obs.covNames, hcovs, hsorted, Bool.and_eq_true, List.all_eq_true]
+  simp only [C04.repOK, Bool.and_eq_true] at hrep
+  refine ⟨⟨⟨⟨⟨trivial, fun r hr => (hrep r hr).1⟩, ?_⟩, ?_⟩, ?_⟩, fun r hr => (hrep r hr).2⟩ <;> simp [strictSortedStr]
+
+/-- the default call `Obs(samples, names)` (no `idl`) needs no extra hypothesis -/
+theorem c04_mk_wf_default (samples : List (List α)) (names : List String) (o : Obs α)
+    (h : mkObs samples names none = .ok o) : Spec.wfC04 o = true :=
+  c04_mk_wf_corrected samples names none o (fun il e => by cases e) h
+
+/-- C04 (rejections) — each listed malformed request raises -/
+theorem c04_reject_length (samples : List (List α)) (names : List String) (idl : Option (List Idl))
+    (hbad : samples.length ≠ names.length) : ∃ e, mkObs samples names idl = .error e := by
+  cases hm : mkObs samples names idl with
+  | error e => exact ⟨e, rfl⟩
+  | ok o => exact absurd (C04.mkObs_ok samples names idl o hm).1 hbad
+
+theorem c04_reject_duplicate_names (samples : List (List α)) (names : List String) (idl : Option (List Idl))
+    (hlen : 1 < names.length) (hdup : ¬ names.Nodup) : ∃ e, mkObs samples names idl = .error e := by
+  cases hm : mkObs samples names idl with
+  | error e => exact ⟨e, rfl⟩
+  | ok o =>
+    obtain ⟨_, _, hchk, _⟩ := C04.mkObs_ok samples names idl o hm
+    exact absurd (C04.nodup_of_unique names (hchk hlen).1) hdup
+
+theorem c04_reject_too_few (samples : List (List α)) (names : List String) (idl : Option (List Idl))
+    (hbad : ∃ s ∈ samples, s.length ≤ 4) : ∃ e, mkObs samples names idl = .error e := by
+  cases hm : mkObs samples names idl with
+  | error e => exact ⟨e, rfl⟩
+  | ok o =>
+    obtain ⟨_, _, _, hfew, _⟩ := C04.mkObs_ok samples names idl o hm
+    obtain ⟨s, hs, hle⟩ := hbad
+    have := hfew s hs
+    omega
+
+theorem c04_reject_several_ensembles (samples : List (List α)) (names : List String) (idl : Option (List Idl))
+    (hbad : ∃ a ∈ names, ∃ b ∈ names, Py.ensOf a ≠ Py.ensOf b) : ∃ e, mkObs samples names idl = .error e := by
+  cases hm : mkObs samples names idl with
+  | error e => exact ⟨e, rfl⟩
+  | ok o =>
+    obtain ⟨_, _, hchk, _⟩ := C04.mkObs_ok samples names idl o hm
+    obtain ⟨a, ha, b, hb, hne⟩ := hbad
+    have hab : a ≠ b := fun e => hne (by rw [e])
+    have hlen : 1 < names.length := C04.two_le_length_of_mem_ne ha hb hab
+    have h1 : Py.ensOf a ∈ Py.sortedSetStr (names.map Py.ensOf) :=
+      (C04.mem_sortedSetStr _ _).2 (List.mem_map.2 ⟨a, ha, rfl⟩)
+    have h2 : Py.ensOf b ∈ Py.sortedSetStr (names.map Py.ensOf) :=
+      (C04.mem_sortedSetStr _ _).2 (List.mem_map.2 ⟨b, hb, rfl⟩)
+    have := C04.two_le_length_of_mem_ne h1 h2 hne
+    have := (hchk hlen).2
+    omega
+
+/-- a list of configuration numbers that is not strictly increasing (unsorted or duplicate
+    entries), or a range with negative step, is rejected by the normalisation the constructor applies -/
+theorem c04_reject_idl (l : List Int) (hbad : Idl.strictInc l = false) : ∃ e, Idl.normalise (.list l) = .error e := by
+  cases hn : Idl.normalise (.list l) with
+  | error e => exact ⟨e, rfl⟩
+  | ok i =>
+    have := (C04.normalise_list_ok l i hn).1
+    rw [hbad] at this
+    cases this
+
+theorem c04_reject_negative_range (s : Int) (n : Nat) (st : Int) (h : st < 0) :
+    ∃ e, Idl.normalise (.range s n st) = .error e := by
+  exact ⟨.negativeStep, by simp [Idl.normalise, h]⟩
+
+/-- accepted lists are stored in normal form: a range exactly when equally spaced -/
+theorem c04_normalise_form (l : List Int) (i : Idl) (h : Idl.normalise (.list l) = .ok i) :
+    i.toList = l ∧ Idl.strictInc l = true ∧ (i.isRange = true ↔ equallySpaced l = true) := by
+  obtain ⟨hs, hi⟩ := C04.normalise_list_ok l i h
+  have := C01b.normOr_list l hs
+  rw [← hi] at this
+  exact ⟨this.1, hs, this.2⟩
+
+/-- C04 (propagation): if every input satisfies the invariant and has chains of at least two
+    configurations, so does every result of `derived_observable` -/
+theorem c04_derived_wf (f : List ℝ → ℝ) (g : List ℝ) (xs : List (Obs ℝ))
+    (covEq : List (List ℝ) → List (List ℝ) → Bool) (o : Obs ℝ)
+    (hwf : ∀ x ∈ xs, Spec.wfC04 x = true)
+    (hlen2 : ∀ x ∈ xs, ∀ q ∈ x.reps, 2 ≤ q.idl.len)
+    (hcov : ∀ x ∈ xs, ∀ c ∈ x.covs, ∀ x' ∈ xs, ∀ c' ∈ x'.covs, c.name = c'.name →
+      c.grad.length = c'.grad.length ∧ c.cov = c'.cov)
+    (h : derivedObs f g xs covEq = .ok o) :
+    Spec.wfC04 o = true ∧ ∀ q ∈ o.reps, 2 ≤ q.idl.len := by
+  have hWF : ∀ x ∈ xs, x.WF = true := by
+    intro x hx
+    have := hwf x hx
+    simp only [Spec.wfC04, Bool.and_eq_true] at this
+    exact this.1
+  have hnames := c01_chains f g xs covEq o h
+  have hunion := c01_union f g xs covEq o hWF h
+  have hnorm := c01_range_normal_corrected f g xs covEq o hWF (fun x hx q hq _ => hlen2 x hx q hq) h
+  obtain ⟨allcov, hcc, ho⟩ := C04.derivedObs_ok' h
+  have hdl := C04.derivedCore_deltas_length f g xs allcov hWF
+  rw [← ho] at hdl
+  have hcovs := C04.derivedCore_covs_full f g xs allcov
+  rw [← ho] at hcovs
+  -- the chains
+  have hsorted : strictSortedStr o.names = true := by
+    rw [hnames]
+    apply C04.strictSortedStr_of_pairwise
+    exact (C04.pairwise_sortedSetStr _).filter _
+  have hlenr : ∀ r ∈ o.reps, 2 ≤ r.idl.len := by
+    intro r hr
+    unfold Idl.len
+    rw [hunion r hr]
+    exact C04.two_le_union xs hWF hlen2 r.name (hdl r hr).1
+  have hrep : ∀ r ∈ o.reps, C04.repOK r = true := by
+    intro r hr
+    apply C04.repOK_of r.idl ?_ (hlenr r hr) (hnorm r hr) r rfl ?_
+    · rw [hunion r hr]; exact C01b.strictInc_sortedSet _
+    · rw [(hdl r hr).2, Idl.len, hunion r hr]
+  -- the covariance inputs
+  have hsortedcov : strictSortedStr o.covNames = true :=
+    C04.strictSortedStr_of_pairwise _ ((C04.pairwise_sortedSetStr _).sublist hcovs.1)
+  have hclash : ∀ n ∈ o.covNames, (!(n.contains '|')) = true ∧ (!(o.names.contains n)) = true := by
+    intro n hn
+    have hn' := hcovs.1.subset hn
+    have hn'' := hn'
+    rw [C04.mem_sortedSetStr, List.mem_flatMap] at hn''
+    obtain ⟨x, hx, hnx⟩ := hn''
+    refine ⟨by simp [(C04.wf_cov (hWF x hx)).1 n hnx], ?_⟩
+    rw [hnames]
+    simp only [Bool.not_eq_true', List.contains_eq_mem, decide_eq_false_iff_not]
+    intro hmem
+    exact (C04.mem_newSampleNames xs n hmem).2 hn'
+  have hshape : ∀ c ∈ o.covs, (c.cov.length == c.grad.length) = true ∧
+      ∀ row ∈ c.cov, (row.length == c.grad.length) = true := by
+    intro c hc
+    obtain ⟨hmem, p, ps, hparts, hgrad⟩ := hcovs.2 c hc
+    rcases C04.collectCov_spec covEq _ [] allcov hcc _ hmem with h0 | ⟨c', hc', hn', hcov'⟩
+    · cases h0
+    simp only at hn' hcov'
+    rw [List.mem_flatMap] at hc'
+    obtain ⟨x, hx, hcx⟩ := hc'
+    obtain ⟨hsq, hrows⟩ := (C04.wf_cov (hWF x hx)).2 c' hcx
+    have hpl := C01b.partsOf_lengths g xs c.name
+      (fun x hx c hc x' hx' c' hc' hnn => (hcov x hx c hc x' hx' c' hc' hnn).1)
+    have hpmem : p ∈ C01b.partsOf g xs c.name := by rw [hparts]; simp
+    have hgl : c.grad.length = c'.grad.length := by
+      rw [hgrad, C04.length_foldl_addLists ps p
+        (fun q hq => hpl q (by rw [hparts]; simp [hq]) p hpmem)]
+      simp only [C01b.partsOf, List.mem_filterMap, Option.map_eq_some_iff] at hpmem
+      obtain ⟨⟨a, x''⟩, hz, c'', hc'', rfl⟩ := hpmem
+      have h1 := C01b.cov?_mem hc''
+      rw [List.length_map]
+      exact (hcov x'' (List.of_mem_zip hz).2 c'' h1.1 x hx c' hcx (by rw [h1.2, hn'])).1
+    rw [← hcov', hgl]
+    exact ⟨by simpa using hsq, fun row hrow => by simpa using hrows row hrow⟩
+  refine ⟨?_, hlenr⟩
+  simp only [C04.repOK, Bool.and_eq_true] at hrep
+  simp only [Spec.wfC04, Obs.WF, Bool.and_eq_true, List.all_eq_true]
+  exact ⟨⟨⟨⟨⟨hsorted, fun r hr => (hrep r hr).1⟩, hsortedcov⟩, hclash⟩, hshape⟩, fun r hr => (hrep r hr).2⟩
+
+
+end constructor_and_propagation
 
 end PV
